@@ -30,7 +30,7 @@ class C20(Cfg):
                   "(2) About the composed system (service + any number of connection loops with inbox, per-room tasks in three phases, close at any moment; every interleaving): for the code as fixed in /repo, "
                   "no room is ever synchronised by two connections or twice by one, every locked room has exactly one party responsible for releasing it (no lock is lost, also across close), at most max rooms are locked; "
                   "for the code before the fix the double-unlock and grant-in-flight witnesses are decide-checked. "
-                  "(3) 'Every request is eventually granted' is FALSE: C20_breaks_starvation proves, for every number of rounds, a schedule in which every granted room is released and a live waiting peer never gets its room (known finding, replayed on the real actor). "
+                  "(3) Eventually granted: for the code as fixed, a waiting peer never loses its place in the queue and gains one every time a released room it wants goes to somebody else, so it is overtaken fewer times than the queue is long (C20_bounded_bypass) and is then served first (head of line); for the code before that fix C20_breaks_starvation proves, for every number of rounds, a schedule in which every granted room is released and a live waiting peer never gets its room (replayed on the real actor of that time). "
                   "Both models are tied to the code on every run: the real actor and real LocalPeerService connection loops are driven on the same op sequences as the compiled models (all sequences over 2-3 peers, 2-3 rooms, limits 1-2 up to a bounded length, plus random long runs and random connection histories), outputs diffed, with an independent spec-level oracle on the implementation's observations.")
     level_note = ("Trusted: Lean kernel (+propext, Classical.choice, Quot.sound), the hand-written models and their correspondence harnesses (single-threaded runtime driven to quiescence after every op), tokio channel semantics. "
                   "Modelled and exercised: room_locking_service.rs; the lock-related part of LocalPeerService::start / process_acquired_room / cleanup in peer_inbound_service.rs (under the eager schedule only; the theorems cover all schedules of the model). "
@@ -42,7 +42,7 @@ class C20(Cfg):
     ]
     assumptions = [
         "tokio mpsc channels are FIFO and lossless; UnboundedSender::send fails iff the receiver was dropped",
-        "starvation-freedom is false of the code (known finding); no-missed-wake-up, same-step progress and head-of-line service are proved",
+        "eventual grant is proved as bounded bypass + head-of-line service + progress; it assumes that granted rooms are released (the connection-level theorems give that for every closed connection)",
         "system-level theorems assume no party outside the modelled connections sends Unlock to the service",
     ]
 
